@@ -47,8 +47,12 @@ def main():
     name = f'{args.prop}-{args.label}'
     meta = {'property': args.prop, 'label': args.label, 'ran': []}
     old_meta = ROOT / 'seeded' / name / 'meta.json'
-    if args.suite_only and old_meta.exists():
-        meta = json.loads(old_meta.read_text())
+    if old_meta.exists():
+        prev = json.loads(old_meta.read_text())
+        if args.suite_only:
+            meta = prev
+        elif args.no_suite and 'suite' in prev:
+            meta['suite'] = prev['suite']  # keep an earlier suite confirmation
 
     wt = Path(tempfile.mkdtemp(prefix=f'seedwt_{name}_', dir='/tmp'))
     wt.rmdir()
